@@ -79,9 +79,13 @@ func (c *cmFile) render(r *rng, fault string) []byte {
 						a, bb = hexStr(append([]byte{0xff}, e.b[1:]...)), hexStr(append([]byte{0x00}, e.b[1:]...))
 					}
 				case "dsttype":
-					dst = pick(r, []string{"true", "1.5", "mark"})
-					if b.kind == "bfchar" || b.kind == "bfrange" {
-						dst = "17"
+					// every wrong type, in particular the type a sibling operator takes
+					dst = pick(r, []string{"true", "1.5", "mark", "<41>", "/n", "[1]", "{1}"})
+					if b.kind == "bfchar" {
+						dst = pick(r, []string{"17", "[<0041>]", "[/a]", "true", "1.5", "{<41>}"})
+					}
+					if b.kind == "bfrange" {
+						dst = pick(r, []string{"17", "/space", "/A", "true", "1.5", "{<41>}"})
 					}
 				}
 			}
@@ -171,7 +175,19 @@ func randCMap(r *rng) *cmFile {
 			}
 			b.entries = append(b.entries, e)
 		}
+		if len(b.entries) > 0 && len(b.entries) < 100 && r.chance(1, 5) {
+			// the same mapping written twice (files do this): both entries are kept; being identical, their order
+			// among each other does not matter
+			b.entries = append(b.entries, b.entries[r.intn(len(b.entries))])
+		}
 		c.blocks = append(c.blocks, b)
+	}
+	if len(c.blocks) > 1 && r.chance(1, 6) {
+		// ... or in a later block of the same kind
+		src := c.blocks[r.intn(len(c.blocks))]
+		if len(src.entries) > 0 {
+			c.blocks = append(c.blocks, cmBlock{kind: src.kind, entries: []cmEntry{src.entries[r.intn(len(src.entries))]}})
+		}
 	}
 	return c
 }
